@@ -820,10 +820,17 @@ func runWrap(s *kernel.Sim, c *scen.Case) {
 	var recvN int
 	var recvErr error
 	s2.Go("A1", func() {
-		for i := 0; i < p.Off+4; i++ {
+		refusals := 0
+		for i := 0; i < p.Off+8; i++ {
 			if err := na.SendMessage(ctx, []byte{byte(i), 'w'}); err != nil {
-				sendErr = err
-				return
+				if sendErr == nil {
+					sendErr = err
+				}
+				// exhaustion is final: the caller tries a few more times, nothing may leave the stream
+				if refusals++; refusals >= 4 {
+					return
+				}
+				continue
 			}
 			sentN++
 		}
